@@ -56,7 +56,7 @@ type Fn struct {
 	Callback bool     `json:"callback"`
 	Info     bool     `json:"info"`
 	ErrPos   *int     `json:"err_pos"` // position of the error result among the results (default: last)
-	Pool     *int     `json:"pool"` // use the declared function P<pool> instead of a reflect.MakeFunc value
+	Pool     *int     `json:"pool"`    // use the declared function P<pool> instead of a reflect.MakeFunc value
 }
 
 type Op struct {
@@ -645,11 +645,17 @@ func main() {
 	// a runaway recursion inside dig must end the process quickly; the
 	// driver reports it as `diverged`
 	debug.SetMaxStack(48 << 20)
+	if len(os.Args) >= 2 && os.Args[1] == "idprobe" {
+		mainIDProbe()
+		return
+	}
 	if len(os.Args) < 3 {
-		fmt.Fprintln(os.Stderr, "usage: harness cases|graphs <file>")
+		fmt.Fprintln(os.Stderr, "usage: harness cases|graphs <file> | idprobe")
 		os.Exit(2)
 	}
 	switch os.Args[1] {
+	case "idprobe":
+		mainIDProbe()
 	case "cases":
 		mainCases(os.Args[2])
 	case "graphs":
@@ -724,4 +730,42 @@ func mainCases(path string) {
 		w.WriteByte('\n')
 		w.Flush()
 	}
+}
+
+// mainIDProbe: constructor / decorator IDs of declared functions, in two
+// independent containers (C18: distinct functions get distinct IDs, the same
+// function always the same ID).
+func mainIDProbe() {
+	curRunner = &runner{fns: map[int]*Fn{}, execs: map[int]int{}, poolFn: map[int]*Fn{}}
+	type rec struct {
+		Container int    `json:"container"`
+		Pool      int    `json:"pool"`
+		Kind      string `json:"kind"`
+		ID        int    `json:"id"`
+		Err       string `json:"err,omitempty"`
+	}
+	var out []rec
+	for ci := 0; ci < 2; ci++ {
+		for i := 0; i < len(poolFuncs); i++ {
+			// a fresh container per function, so that every Provide is accepted
+			c := dig.New(dig.DeferAcyclicVerification())
+			var info dig.ProvideInfo
+			err := c.Provide(poolFuncs[i], dig.FillProvideInfo(&info))
+			r := rec{Container: ci, Pool: i, Kind: "provide", ID: int(info.ID)}
+			if err != nil {
+				r.Err = "rejected"
+			}
+			out = append(out, r)
+			var dinfo dig.DecorateInfo
+			err = c.Decorate(poolFuncs[i], dig.FillDecorateInfo(&dinfo))
+			r = rec{Container: ci, Pool: i, Kind: "decorate", ID: int(dinfo.ID)}
+			if err != nil {
+				r.Err = "rejected"
+			}
+			out = append(out, r)
+		}
+	}
+	b, _ := json.Marshal(out)
+	os.Stdout.Write(b)
+	os.Stdout.WriteString("\n")
 }
